@@ -12,7 +12,7 @@ func verifPool() (S sdkmath.LegacyDec, T sdkmath.Int) {
 	S = verifrt.Dec("S")
 	T = verifrt.Int("T")
 	max := sdkmath.NewIntFromBigInt(verifMaxAmount())
-	verifrt.Assume(T.IsPositive() && T.LTE(max))
+	verifrt.Assume(verifrt.All(T.IsPositive(), T.LTE(max)))
 	verifrt.Assume(S.GTE(sdkmath.LegacyNewDecFromInt(T)))
 	verifrt.Assume(S.LTE(sdkmath.LegacyNewDecFromInt(max)))
 	return
@@ -23,7 +23,7 @@ func verifPool() (S sdkmath.LegacyDec, T sdkmath.Int) {
 func VerifC02RoundTrip() {
 	S, T := verifPool()
 	x := verifrt.Int("x")
-	verifrt.Assume(x.IsPositive() && x.LTE(sdkmath.NewIntFromBigInt(verifMaxAmount())))
+	verifrt.Assume(verifrt.All(x.IsPositive(), x.LTE(sdkmath.NewIntFromBigInt(verifMaxAmount()))))
 	// LegacyDec's 315-bit overflow panic (recovered by DeliverTx) is outside this claim
 	if verifrt.Try(func() { verifC02RoundTripBody(S, T, x) }) {
 		verifrt.Cover("dec-overflow-panic")
